@@ -55,7 +55,10 @@ func setup() error {
 var pieces = []string{"Hello", "fi", "ffl", "AVATAR", "To Wa", "0123456789", "54321", "24680", "11111", "x", " ", "  ", "(a)", "é", "Ünï", "q̣", "x̂́", "é", "αβγ", "Жук", "—", "“q”", "%&$", "Tj", "Ty.", "office", " ", "€", "ﬁ", "W", "iiii", "MMMM", "a-b", "T​z",
 	// every printable ASCII character: more than 92 distinct glyphs of one font in a document (the subsetter hands out the
 	// two-byte codes in order of first appearance, so the codes reach 0x5C, the backslash, and beyond)
-	" !\"#$%&'()*+,-./0123456789:;<=>?@ABCDEFGHIJKLMNOPQRSTUVWXYZ[\\]^_`abcdefghijklmnopqrstuvwxyz{|}~"}
+	" !\"#$%&'()*+,-./0123456789:;<=>?@ABCDEFGHIJKLMNOPQRSTUVWXYZ[\\]^_`abcdefghijklmnopqrstuvwxyz{|}~",
+	// characters beyond the BMP that the fonts have glyphs for (mathematical italic in DejaVu Serif, regional indicators
+	// in EB Garamond): their ToUnicode entries are UTF-16 surrogate pairs (seed C18-7)
+	"x\U0001D434y", "\U0001D434\U0001D435\U0001D436", "\U0001D7E1", "\U0001F1E6", "a\U0001F1E7"}
 
 func genText(t *rapid.T, label string, max int) string {
 	n := rapid.IntRange(1, max).Draw(t, label+"n")
